@@ -181,7 +181,7 @@ def run_wlgen_family(ctx, cases, family="wlgen"):
     """cases: list of dict(list, length, sep, cap, budget, words, meta). Two-phase run; returns [(case, impl, model)]."""
     lines = []
     for i, c in enumerate(cases):
-        lines.append("w%d %s" % (i, wlgen_line(c["list"], c["length"], c["sep"], c["cap"], c["budget"], c["words"])))
+        lines.append("w%d %s" % (i, wlgen_line(c["list"], c["length"], c["sep"], c["cap"], c["budget"], c.get("words"), chunks=c.get("chunks"))))
     impl, n1 = core.run_impl(lines)
     mlines = []
     for i, c in enumerate(cases):
@@ -189,7 +189,7 @@ def run_wlgen_family(ctx, cases, family="wlgen"):
         order, titles, rest = parse_pre(a) if a else (None, None, None)
         emit = order if order is not None else "none"
         tl = titles if titles is not None else "0"
-        mlines.append("w%d %s" % (i, wlgen_line(c["list"], c["length"], c["sep"], c["cap"], c["budget"], c["words"], emit=emit, titles=tl)))
+        mlines.append("w%d %s" % (i, wlgen_line(c["list"], c["length"], c["sep"], c["cap"], c["budget"], c.get("words"), chunks=c.get("chunks"), emit=emit, titles=tl)))
     model, n2 = core.run_model(mlines)
     for n in (n1, n2):
         if n:
